@@ -94,7 +94,12 @@ def run_case(case):
                 if m is None:
                     fail("memoized call has no memento", "after %s" % op, step)
                     break
-                data = content_bytes(plain, m)
+                try:
+                    data = content_bytes(plain, m)
+                except Exception as e:
+                    fail("content key of a new memento names no stored object",
+                         "after %s: content key %s: %r" % (op, m.content_key, e), step)
+                    break
                 sha = hashlib.sha256(data).hexdigest() if data is not None else None
                 live[key] = (m, sha, data, op[3])
                 if any(k != key and v[0].content_key is not None and m.content_key is not None
